@@ -564,6 +564,59 @@ theorem C08_rollback_complete_for_survivors {w : World} (hq : Quiet w) (hr : 0 <
 
 /-! ## The retry window -/
 
+/-! ## 5. Commands computed by a method in one disruption pass (`Controller.disrupt` → `StartCommand` for each) -/
+
+/-- **C08_replacements_not_shared** — whatever happens to a replacement of ANOTHER command (it launches, initializes,
+    vanishes), the replacements command `K` waits for - their names, latches and API states - are untouched -/
+theorem C08_replacements_not_shared (w : World) (op : EnvOp) (k i K : Nat) (h : k ≠ K) :
+    cmdAt (step w (.env op k i)).2.2 K = cmdAt w K := by
+  show cmdAt (envStep op k i { w with fired := 0 }).2 K = cmdAt w K
+  unfold envStep
+  split
+  · rfl
+  · split
+    · rfl
+    · show cmdAt (setCmd _ k _) K = _
+      rw [cmdAt_setCmd]
+      rw [if_neg (fun hh => h hh.1.symm)]
+      rfl
+
+/-- … hence a queue pass for command `K` right after such an event issues a Delete only if `K`'s OWN replacements were
+    all ready before the event: readiness of a replacement launched for another command never releases a candidate -/
+theorem C08_other_commands_replacement_releases_nothing (w : World) (op : EnvOp) (k i : Nat) (s : Step) (e : DelEvent)
+    (he : e ∈ (step (step w (.env op k i)).2.2 s).2.1) :
+    ∃ ci K, (candAt (step w (.env op k i)).2.2 ci).owner = some K ∧
+      (k ≠ K → ∀ r ∈ (cmdAt w K).repls, r.latched = true ∨ r.api = .init) := by
+  obtain ⟨_, _, ci, K, _, hK, _, _, h3⟩ := C08_delete_only_by_owning_pass _ s e he
+  exact ⟨ci, K, hK, fun hne => by rw [C08_replacements_not_shared w op k i K hne] at h3; exact h3⟩
+
+/-- **C08_pass_delete_after_ready_hist** — over all histories WITH DISRUPTION PASSES (every pass starting the commands a
+    method computed, however many), from any initial configuration: a Delete is issued only with every replacement of the
+    owning command created and Initialized -/
+theorem C08_pass_delete_after_ready_hist (ncands : Nat) (cmds : List (List Nat × Nat)) (faults : List Fault)
+    (missing : List Nat) (retrySteps : Nat) (mode : TimeoutMode) (ns : List Nat) (ps : List PStep) (s : Step) (e : DelEvent)
+    (he : e ∈ (step (run (initWorld ncands cmds faults missing retrySteps mode) (expand 0 ns ps)) s).2.1) :
+    let w := run (initWorld ncands cmds faults missing retrySteps mode) (expand 0 ns ps)
+    ∃ ci K, (candAt w ci).owner = some K ∧ e.cand ∈ (cmdAt w K).live ∧
+      e.repls.length = (cmdAt w K).repls.length ∧
+      ∀ r ∈ (cmdAt w K).repls, r.created = true ∧ r.everInit = true :=
+  C08_delete_after_ready_hist ncands cmds faults missing retrySteps mode (expand 0 ns ps) s e he
+
+/-- a pass only ever starts commands: it issues no Delete itself and hands no queued node to another command -/
+theorem C08_pass_only_starts (first n : Nat) (s : Step) (hs : s ∈ passSteps first n) :
+    ∃ j, j < n ∧ s = .start (first + j) true := by
+  unfold passSteps at hs
+  simp only [List.mem_map, List.mem_range] at hs
+  obtain ⟨j, hj, rfl⟩ := hs
+  exact ⟨j, hj, rfl⟩
+
+/-- the commands of one pass are numbered consecutively and are pairwise distinct -/
+theorem C08_pass_commands_distinct (first n a b : Nat) (ha : a < n) (hb : b < n)
+    (h : (passSteps first n)[a]? = (passSteps first n)[b]?) : a = b := by
+  unfold passSteps at h
+  simp [ha, hb] at h
+  exact h
+
 /-- `GetMaxRetryDuration` stays within its clamp for every queue size -/
 theorem C08_retry_window_bounds (n : Nat) :
     (Karp.Gen.OrchQueue.minRetryDurationNs : Int) ≤ retryDuration n ∧
@@ -628,5 +681,14 @@ example : (step (run goneWorld [.start 0 true, .candGone 1, .env .init 0 0]) (.r
 /-- two actions, one node: the second start is refused (hypothesis of `C08_start_refuses_queued`) -/
 example : (step (run (initWorld 2 [([0], 1), ([0, 1], 1)] [] [] 4 .wrapAll) [.start 0 true]) (.start 1 false)).1 = .busy := by
   decide
+
+def twoWorld : World := initWorld 2 [([0], 1), ([1], 1)] [] [] 4 .waitOnly
+/-- two drifted nodes, one pass computing a command each; only the replacement of the SECOND command becomes ready: the
+    pass of the first command waits and deletes nothing, the pass of the second deletes its own candidate only -/
+example : expand 0 [2] [.pass, .plain (.env .init 1 0)] = [.start 0 true, .start 1 true, .env .init 1 0] := by decide
+example : (step (run twoWorld (expand 0 [2] [.pass, .plain (.env .init 1 0)])) (.reconcile 0 0)).1 = .requeue ∧
+    (step (run twoWorld (expand 0 [2] [.pass, .plain (.env .init 1 0)])) (.reconcile 0 0)).2.1 = [] ∧
+    (step (run twoWorld (expand 0 [2] [.pass, .plain (.env .init 1 0)])) (.reconcile 1 0)).2.1 =
+      [{ cand := 1, repls := [.init], ok := true }] := by decide
 
 end Karp.C08
